@@ -3742,7 +3742,7 @@ func (a *Agent) TaskDispatch(RequestID uint32, CommandID uint32, Parser *parser.
 						)
 
 						ModuleName = Parser.ParseString()
-						ModuleBase = "0x" + strconv.FormatInt(Parser.ParsePointer(), 16)
+						ModuleBase = "0x" + strconv.FormatUint(Parser.ParsePointer(), 16)
 
 						collum = []string{strings.ReplaceAll(ModuleName, " ", ""), ModuleBase} // TODO: fix this to avoid new line in the havoc console
 						tableData = append(tableData, collum)
@@ -3895,7 +3895,7 @@ func (a *Agent) TaskDispatch(RequestID uint32, CommandID uint32, Parser *parser.
 							collum []string
 						)
 
-						BaseAddress = "0x" + strconv.FormatInt(Parser.ParsePointer(), 16)
+						BaseAddress = "0x" + strconv.FormatUint(Parser.ParsePointer(), 16)
 						RegionSize = utils.ByteCountSI(int64(Parser.ParseInt32()))
 						iProtect = int(Parser.ParseInt32())
 						iState = int(Parser.ParseInt32())
@@ -4020,7 +4020,7 @@ func (a *Agent) TaskDispatch(RequestID uint32, CommandID uint32, Parser *parser.
 				logger.Debug(fmt.Sprintf("Agent: %x, Command: COMMAND_INLINEEXECUTE - COMMAND_INLINEEXECUTE_EXCEPTION", AgentID))
 				var (
 					Exception = Parser.ParseInt32()
-					Address   = Parser.ParseInt64()
+					Address   = Parser.ParsePointer()
 				)
 
 				OutputMap["Type"] = "Error"
